@@ -1,7 +1,93 @@
-(* Props/C43.v -- placeholder while the proofs are being written. *)
-From Coq Require Import List Bool NArith.
-From MV Require Import Base.Bytes Model.View.
+(* Props/C43.v -- The flow view always shows exactly the matching flows in order.
+   Statements only; each is closed by [exact] of a lemma proved in Proofs/View*.v.
+   Model: Model/View.v (View, _OrderKey, Focus, Settings of mitmproxy/addons/view.py, SortedKeyList as sorted
+   insertion over (key, id) pairs).  [run ops init] executes a history of calls on a fresh View; every theorem
+   quantifies over ALL histories (any flows, any key changes between updates).
+   Definitions used: [visible] = list(view); [wanted s id] = the flow matches the current filter and, in
+   marked-only mode, is marked; [key_of s id] = current sort key of the flow under the selected order;
+   [view_sorted] = list(view) ascending by key_of (descending when reversed); [notif] = what the signals of a
+   call say about the change of the shown set; [guarded G ops init] = every call of the history satisfies G.
 
-Theorem C43_nonvacuous : run nil init = Ok init.
-Proof. reflexivity. Qed.
+   Two findings make the full statement false for the unchanged code (each has _refuted + _partial):
+   - marked-only-ignored-by-add-update: add/update test only the filter, not show_marked.
+     [marked_ok] is exactly the complement: no add of a new, matching, unmarked flow and no update of a stored,
+     matching, unmarked flow while marked-only mode is on.
+   - stale-order-key: a cached sort key is refreshed only for the current order and only while the flow is shown.
+     [fresh_ok] is exactly the complement: no update leaves a cached key that differs from the flow's key
+     (for another order, or while the flow is hidden / stops matching). *)
+From Coq Require Import List Bool NArith Permutation Sorted.
+From MV Require Import Base.Bytes Model.View Proofs.ViewSpec Proofs.ViewOps Proofs.ViewMain.
+Import ListNotations.
+
+(* No call ever raises (ValueError from the sorted list or the focus setter, KeyError from settings,
+   IndexError from _rev / __getitem__), whatever the history. *)
+Theorem C43_no_exception : forall ops, exists s, run ops init = Ok s.
+Proof. exact no_exception. Qed.
+Print Assumptions C43_no_exception.
+
+(* Unconditionally: each flow is listed at most once; every listed flow is stored and matches the filter;
+   every stored flow that matches (and is marked, in marked-only mode) is listed; the list is ordered
+   (reversal handled) by the keys cached for the selected order. *)
+Theorem C43_view_bounds : forall ops s, run ops init = Ok s ->
+  NoDup (visible s)
+  /\ (forall id, In id (visible s) -> In id (store s) /\ fmatches (filt s) (attr s id) = true)
+  /\ (forall id, In id (store s) -> wanted s id = true -> In id (visible s))
+  /\ view_sorted_cached s.
+Proof. exact view_bounds. Qed.
+Print Assumptions C43_view_bounds.
+
+(* FINDING marked-only-ignored-by-add-update: a history after which a stored flow is listed although it is
+   not wanted (marked-only mode is on and the flow is not marked). *)
+Theorem C43_exact_refuted : exists ops s id, run ops init = Ok s
+  /\ In id (visible s) /\ In id (store s) /\ wanted s id = false.
+Proof. exact marked_refuted. Qed.
+Print Assumptions C43_exact_refuted.
+
+(* Outside that finding the view lists exactly the wanted stored flows, each once. *)
+Theorem C43_exact_partial : forall ops s, guarded marked_ok ops init -> run ops init = Ok s ->
+  Permutation (visible s) (filter (wanted s) (store s)).
+Proof. exact view_exact_partial. Qed.
+Print Assumptions C43_exact_partial.
+
+(* FINDING stale-order-key: a history (size order, back to time order, the first flow shrinks, size order
+   again) after which flow a is listed before flow b although b has the smaller current key. *)
+Theorem C43_sorted_refuted : exists ops s a b, run ops init = Ok s /\ reversed s = false
+  /\ visible s = [a; b] /\ (key_of s b < key_of s a)%N.
+Proof. exact stale_refuted. Qed.
+Print Assumptions C43_sorted_refuted.
+
+Theorem C43_sorted_refuted' : exists ops s, run ops init = Ok s /\ ~ view_sorted s.
+Proof. exact stale_not_sorted. Qed.
+Print Assumptions C43_sorted_refuted'.
+
+(* Outside that finding the list is sorted by the current key of the selected order, reversed when requested. *)
+Theorem C43_sorted_partial : forall ops s, guarded fresh_ok ops init -> run ops init = Ok s -> view_sorted s.
+Proof. exact view_sorted_partial. Qed.
+Print Assumptions C43_sorted_partial.
+
+(* The focus is always a listed flow; it is None exactly when the view is empty. *)
+Theorem C43_focus : forall ops s, run ops init = Ok s ->
+  (forall f, focus s = Some f -> In f (visible s)) /\ (focus s = None <-> visible s = []).
+Proof. exact focus_in_view. Qed.
+Print Assumptions C43_focus.
+
+(* Per-flow settings exist only for stored flows. *)
+Theorem C43_settings : forall ops s id, run ops init = Ok s -> In id (settings_ids s) -> In id (store s).
+Proof. exact settings_only_stored. Qed.
+Print Assumptions C43_settings.
+
+(* The signals of every call account for the change of the shown set: sig_view_add only for a flow that was
+   not shown and now is, sig_view_remove (with its position in the underlying list) only for a shown flow that
+   is no longer shown, sig_view_update only for a shown flow, and without sig_view_refresh nothing else changes. *)
+Theorem C43_signals : forall ops s o s', run ops init = Ok s -> step o s = Ok s' ->
+  notif (raw_ids s) (log s') (raw_ids s').
+Proof. exact signals_match. Qed.
+Print Assumptions C43_signals.
+
+(* The guards are satisfiable on a non-trivial history (two marked flows, size order, marked-only mode, the
+   shown flow 0 shrinks and is re-sorted, reversed): both partial theorems apply to it. *)
+Theorem C43_nonvacuous : exists s, run hist_good init = Ok s
+  /\ guarded marked_ok hist_good init /\ guarded fresh_ok hist_good init
+  /\ visible s = [1%N; 0%N] /\ show_marked s = true /\ focus s = Some 0%N.
+Proof. exact good_history. Qed.
 Print Assumptions C43_nonvacuous.
